@@ -486,7 +486,8 @@ fn model_instances(prop: &str, thorough: bool) -> Vec<(String, ParModel)> {
     if prop == "C05" {
         for w in 1..=maxw {
             for f in 0..=maxf {
-                if w == 4 && f > 4 && !thorough {
+                // W=4 beyond 4 frames exceeds 10^9 states (the space grows about sevenfold per frame)
+                if w == 4 && f > 4 {
                     continue;
                 }
                 for fill in [true, false] {
@@ -629,7 +630,9 @@ fn run_parent(prop: &str, tier: &str, seed: u64, report: Option<String>, replay:
             let exp = model::expected(&m.script);
             let w = m.w;
             let nf = m.script.iter().filter(|r| matches!(r, Read::Data { .. })).count();
+            let t1 = Instant::now();
             let (uniq, gen, depth, disc) = model::explore(m, 16);
+            eprintln!("[parx] model {name}: {uniq} states, {gen} generated, depth {depth}, {:.1}s", t1.elapsed().as_secs_f64());
             states += uniq as u64;
             transitions += gen as u64;
             let mut row = json!({"unique_states": uniq, "generated_states": gen, "max_depth": depth, "expected": format!("{exp:?}")});
